@@ -30,7 +30,8 @@ FLAGS = {"repaired": "", "v011": "s", "v101": "o", "v110": "l", "v001": "so", "v
 SIG = {"s": "sendAccountingUpdate-sent-value-not-remembered-when-unacknowledged",
        "o": "start-stop-interim-sent-from-unordered-goroutines",
        "l": "handleSessionRelease-l2gw-stop-reads-interface-table"}
-RULE = ("One case = one history of the real AAA component with 1-4 sessions (two of them share an interim bucket; "
+RULE = ("One case = one history of the real AAA component with 1-4 sessions (two of them share an interim bucket; 6% of "
+        "the histories have 5-7 sessions crowded in one bucket, with releases between ticks); "
         "IPoE, PPPoE and l2gw payloads; l2gw sessions read the l2gw stats segment - access and handoff entry - on a tick, "
         "with entries missing / segment unavailable / segment restarted): lifecycle-active (repeated), restored (same or renumbered interface), released "
         "(repeated, before any start), bucket ticks (own bucket, foreign bucket, per-session Accounting-Response "
@@ -65,6 +66,7 @@ ASSUMPTIONS = ["per-session independence: session ids are distinct strings; the 
                "handlers of one group is"]
 
 POOL = [("s7", 7), ("s10", 7), ("s2", 0), ("s3", 11)]
+CROWD = [("s7", 7), ("s10", 7), ("s29", 7), ("s36", 7), ("s47", 7), ("s54", 7), ("s58", 7)]    # one crowded bucket
 IFX = [5, 6, 8, 9]
 BIG = [2 ** 32 - 1, 2 ** 32, 2 ** 32 + 12345, 2 ** 63, 2 ** 64 - 1, 2 ** 64 - 1000]
 
@@ -186,9 +188,12 @@ class Plane:
         return items
 
 
-def gen_one(rng, nops, big, degenerate=False):
+def gen_one(rng, nops, big, degenerate=False, crowd=False):
     k = rng.choice([1, 1, 2, 2, 3, 4])
     sess = POOL[:k] if rng.random() < 0.7 else rng.sample(POOL, k)
+    if crowd:
+        k = rng.choice([5, 6, 7])
+        sess = rng.sample(CROWD, k)
     tys = [rng.choice("iippgg") for _ in sess]
     head = ["S", str(k)] + ["%s:%d:%s" % (sid, b, t) for (sid, b), t in zip(sess, tys)]
     pl = Plane(rng, big)
@@ -408,7 +413,7 @@ def gen_cases(rng, tier, budget):
     for i in range(n):
         r = rng.random()
         nops = rng.choice([3, 5, 8, 12, 18, 25]) if tier == "quick" else rng.choice([3, 6, 10, 16, 24, 40])
-        c, _ = gen_one(rng, nops, big=(r < 0.15), degenerate=(0.15 <= r < 0.25))
+        c, _ = gen_one(rng, nops, big=(r < 0.15), degenerate=(0.15 <= r < 0.25), crowd=(0.25 <= r < 0.31))
         cases.append(c)
     # forced-overlap histories (each is run 5 times by the harness and must give the same line every time)
     conc = ["S 1 s7:7:i A,0,5 T,7,0,5:10:1:1:1 C/5:20:2:2:2/X,0/X,0 A,0,5",
